@@ -29,10 +29,12 @@ def convert(beh):
     st0 = beh[0][1]
     T, S, D, C = _nums(st0["cfgT"]), _nums(st0["cfgS"]), _nums(st0["cfgD"]), _bools(st0["cfgC"])
     SD = _nums(st0["cfgSD"])
-    jobs = [{"T": T[i], "S": S[i], "D": D[i], "C": C[i], "SD": SD[i]} for i in range(len(T))]
+    CD = _nums(st0["cfgCD"]) if "cfgCD" in st0 else [0] * len(T)
+    jobs = [{"T": T[i], "S": S[i], "D": D[i], "C": C[i], "SD": SD[i], "CD": CD[i]} for i in range(len(T))]
     sched = [n for n in (_actor_name(s[1]["actor"]) for s in beh[1:]) if n]
     hist = re.findall(r'<<"(\w+)", (-?\d+), (\d+)>>', beh[-1][1]["hist"])
-    exp = [[a, int(b), int(c)] for a, b, c in hist]
+    # (the model marks the end of SLOW cancels only; the code's trace has one for every cancel: not compared)
+    exp = [[a, int(b), int(c)] for a, b, c in hist if a != "CancelArrivedRet"]
     task = {"scen": "timeout", "params": {"flavour": "manual", "jobs": jobs, "horizon": 7000, "visible": True},
             "strat": ["replay", sched, ["sticky"], True], "gran": "sync"}
     return task, exp
@@ -69,11 +71,16 @@ def run(ck):
     # 1. the modelled design satisfies the contract on every interleaving (exhaustive, small constants)
     ck.mc("Timeout", "Timeout.mc.cfg" if quick else "Timeout.mc3.cfg", timeout=3000)
     ck.mc("Timeout", "Timeout.mc4.cfg", timeout=3000)     # submissions one tick around another one's deadline
+    # delegates whose cancel() takes time and refuses (the loop thread is busy while other deadlines pass)
+    ck.mc("Timeout", "Timeout.mc5.cfg" if quick else "Timeout.mc6.cfg", timeout=3000)
     # 2. spec -> code: TLC behaviours replayed in the real TimeoutExecutor
     behs = tlc.simulate_behaviours("Timeout", "Timeout.sim.cfg", 60 if quick else 600, 90, ck.seed + 1, timeout=900)
     ck.replay_behaviours(behs, convert, project, TRACE)
     # ... including delegates whose own submit() takes time (the deadline counts from the creation of the future)
     behs = tlc.simulate_behaviours("Timeout", "Timeout.sim2.cfg", 40 if quick else 400, 90, ck.seed + 2, timeout=900)
+    ck.replay_behaviours(behs, convert, project, TRACE)
+    # ... and delegates whose cancel() takes time
+    behs = tlc.simulate_behaviours("Timeout", "Timeout.sim3.cfg", 40 if quick else 400, 90, ck.seed + 3, timeout=900)
     ck.replay_behaviours(behs, convert, project, TRACE)
     # 3. code -> spec: many real executions (all three flavours, both granularities), judged by TLC
     tasks = []
